@@ -151,10 +151,9 @@ func c12Pipes(tier string) []C12Pipe {
 		}
 		ps = append(ps, C12Pipe{Name: fmt.Sprintf("multiuse-invalid-map/%v", mx), Prog: "numbers(n).multiUse({" + strings.Join(es, ",") + "})", Stage: "multiuse", Stop: "error", N: 200})
 	}
-	if tier == "thorough" {
-		// a consumer that never reads: CopyProducer gives up after 5 s
-		ps = append(ps, C12Pipe{Name: "multiuse/consumer-never-reads", Prog: "numbers(n).multiUse({a:l->1,b:l->l.sum()}).a", Stage: "multiuse", Stop: "error", N: 200})
-	}
+	// a consumer that never reads: CopyProducer gives up after 5 s (the ATimeout path of Conc/MultiUse.v); one call
+	ps = append(ps, C12Pipe{Name: "multiuse/consumer-never-reads", Prog: "numbers(n).multiUse({a:l->1,b:l->l.sum()}).a", Stage: "multiuse", Stop: "error", N: 200},
+		C12Pipe{Name: "multiuse/consumer-never-reads-first", Prog: "numbers(n).multiUse({b:l->l.sum(),a:l->1}).a", Stage: "multiuse", Stop: "error", N: 200})
 	return ps
 }
 
